@@ -76,7 +76,8 @@ def run(ctx):
     nev = 8 if q else 16
     events = list(range(nev))
     scripts = []
-    for diag, sc in ((True, False), (False, True), (True, True), (False, False)):
+    for diag, sc, calo in ((True, False, False), (False, True, False), (True, True, False), (False, False, False),
+                           (False, False, True), (True, True, True)):
         phases = [{"streams": 1, "mode": "serial", "assign": [events]}]
         for p in pats[: (3 if q else 12)]:
             ev = events[:]
@@ -95,8 +96,8 @@ def run(ctx):
             for j, b in enumerate(busy):
                 asg[b] = ev[j::len(busy)]
             phases.append({"streams": k, "mode": "free", "assign": asg})
-        scripts.append({"seed": ctx.seed % 100000, "prims": 2, "emax": 20.0, "slots": [4, 1, 8, 2][len(scripts) % 4],
-                        "diag": diag, "status_checker": sc, "scale": 5, "phases": phases})
+        scripts.append({"seed": ctx.seed % 100000, "prims": 2, "emax": 20.0, "slots": [4, 1, 8, 2, 3, 6][len(scripts) % 6],
+                        "diag": diag, "status_checker": sc, "calo": calo, "scale": 5, "phases": phases})
     vlib.build(["vstreams"])
     files, sps = [], []
     for i, s in enumerate(scripts):
